@@ -153,6 +153,40 @@ def beliefs(dna):
   return out
 
 
+def lookups(d, spec):
+  """Every public look-up on a bound DNA: by decision point, id, name; decision_ids; named_decisions.
+  Returns (canonical results, identity) where identity says that every node handed out belongs to `d`."""
+  from pyglove.core import geno
+  res, ident = [], True
+
+  def canon(v):
+    nonlocal ident
+    if isinstance(v, geno.DNA):
+      if v.root is not d:
+        ident = False
+      return H.tree_of(v)
+    if isinstance(v, list):
+      return [canon(x) for x in v]
+    return v
+
+  for dp in spec.decision_points:
+    for key in (dp, str(dp.id)) + ((dp.name,) if dp.name else ()):
+      try:
+        res.append(canon(d[key]))
+      except CaseTimeout:
+        raise
+      except Exception as e:   # pylint: disable=broad-except
+        res.append('error:' + type(e).__name__)
+  try:
+    res.append(sorted(str(k) for k in d.decision_ids))
+    res.append(sorted((k, canon(v)) for k, v in d.named_decisions.items()))
+  except CaseTimeout:
+    raise
+  except Exception as e:   # pylint: disable=broad-except
+    res.append('error:' + type(e).__name__)
+  return res, ident
+
+
 class C12(Prop):
   id = 'C12'
   props_modules = ['PgProps.C12']
@@ -167,7 +201,9 @@ class C12(Prop):
           'dna_spec keys are checked by the oracle), and producer chains of 1-5 operations from '
           '{next, clone, renumber, redict, rejson, swap, random, mutators.Uniform, recombinators.Uniform / KPoint} '
           '(for the evolution operators the model is given the raw tree they return and predicts its bindings); '
-          'plus a family of conditional choices nested in conditional choices with all their members. Non-trivial: the member has at least 2 nodes; '
+          'plus a family of conditional choices nested in conditional choices with all their members, and named float '
+          'points inside the candidates of non-distinct multi-choices (several positions active, name_or_id keys); '
+          'all look-ups (dna[dp], dna[id], dna[name], decision_ids, named_decisions) are made before and after every step. Non-trivial: the member has at least 2 nodes; '
           'distinct: by case JSON.')
   trusted_base = [
       'harness/c11_geno.py reference of members (case generation) and swap_sites (which node Swap picks)',
@@ -255,7 +291,7 @@ class C12(Prop):
     return {'op': 'views', 'spec': spec, 'dnas': uniq, 'chains': chains}
 
   def generate(self, rng, tier):
-    n = 110 if tier == 'quick' else 1500
+    n = 90 if tier == 'quick' else 1500
     for i in range(n):
       allow_inf = (i % 4 == 3)
       spec = None
@@ -284,6 +320,17 @@ class C12(Prop):
                  G.C(2, [[copy.deepcopy(one)], [], []], True, False)]
     for p in (nested if tier == 'quick' else nested * 3):
       yield self.make_case(decorate(copy.deepcopy(p), rng), rng, n_members=2, n_chains=2, all_members=True)
+    # a NAMED float decision point inside the candidates of a multi-choice, several positions active
+    for rep in range(1 if tier == 'quick' else 6):
+      for k in (2, 3):
+        for srt in (False, True):
+          fl = lambda nm: G.F([0, 1], [1, 1], name=nm, loc=['r'])
+          a = G.C(k, [[fl('rate')], [], [G.C(1, [[], []], loc=['z'])]], False, srt, loc=['x'])
+          b = G.C(k, [[fl('rate'), G.C(1, [[], []], name='opt', loc=['o'])], []], False, srt, name='mc', loc=['y'])
+          c = G.S([copy.deepcopy(a), G.C(1, [[], [G.F([0, 1], [2, 1], name='lr', loc=['w'])]], loc=['u'])])
+          d = G.C(1, [[copy.deepcopy(a)], []], loc=['top'])
+          for spec in (a, b, c, d):
+            yield self.make_case(copy.deepcopy(spec), rng, n_members=6 if tier == 'quick' else 8, n_chains=2)
     fam = [p for p in G.family_points(max_n=3, max_k=3) if G.size_bound(p) <= 60]
     picked = rng.sample(fam, 40) if tier == 'quick' else fam
     for p in picked:
@@ -374,6 +421,7 @@ class C12(Prop):
         a, b = get(d), get(rebuilt)
         look.append(True if a == b else [str(key)[:40], a, b])
     obs['lookups'] = look
+    obs['lookups_identity'] = lookups(d, spec)[1]
     return out, obs
 
   def step_views(self, spec, d):
@@ -387,7 +435,10 @@ class C12(Prop):
       raise
     except Exception:   # pylint: disable=broad-except
       return o, {'same_as_rebuilt': False}
-    ob = {'same_as_rebuilt': (beliefs(rebuilt) == o['beliefs'] and canon_dict(rebuilt.to_dict()) == o['dict']
+    la, ident = lookups(d, spec)
+    lb, _ = lookups(rebuilt, spec)
+    ob = {'lookups_same': la == lb, 'lookups_identity': ident,
+          'same_as_rebuilt': (beliefs(rebuilt) == o['beliefs'] and canon_dict(rebuilt.to_dict()) == o['dict']
                               and canon_dict(rebuilt.to_dict(key_type='name_or_id', value_type='choice_and_literal',
                                                              multi_choice_key='both')) == o['dict2'])}
     return o, ob
@@ -412,6 +463,7 @@ class C12(Prop):
       for op in ch['ops']:
         try:
           k = op['op']
+          lookups(cur, spec)     # look-ups BEFORE the step (they fill the caches of the DNA)
           if k == 'next':
             cur = spec.next_dna(cur)
           elif k == 'clone':
@@ -519,6 +571,8 @@ class C12(Prop):
                           % (kt, vt, mk, back, me, G.spec_key(spec)[:400])}
       if not ob['spec_keys_equal_id_keys']:
         return {'signature': 'dna-spec-keys-differ', 'what': 'to_dict(key_type=dna_spec) differs from key_type=id'}
+      if not ob.get('lookups_identity', True):
+        return {'signature': 'lookup-foreign-node', 'what': 'a look-up on %s handed out a node of another DNA' % me}
       bad = [x for x in ob['lookups'] if x is not True]
       if bad:
         return {'signature': 'lookup-differs-from-rebuilt', 'what': 'd[key] differs from rebuilt[key]: %s' % bad[:3]}
@@ -527,6 +581,12 @@ class C12(Prop):
         if st is not None and 'error' in st:
           return {'signature': 'producer-raises:' + op['op'], 'what': st['error']}
       for op, ob in zip(ch['ops'], sobs):
+        if ob.get('lookups_same') is False or ob.get('lookups_identity') is False:
+          return {'signature': 'lookup-stale-after:' + op['op'],
+                  'what': 'after %s, dna[decision point / id / name], decision_ids or named_decisions differ from '
+                          'those of the DNA rebuilt from the raw numbers, or hand out a node of another DNA '
+                          '(same=%s, identity=%s; start %s, ops %s)' % (
+                              op['op'], ob.get('lookups_same'), ob.get('lookups_identity'), ch['start'], ch['ops'])}
         if not ob['same_as_rebuilt']:
           return {'signature': 'misaligned-after:' + op['op'],
                   'what': 'after %s the views / node bindings differ from those of a DNA rebuilt from the raw numbers '
